@@ -385,6 +385,51 @@ def dtab_invalid(ctx, prog):
             ctx.fail(R, "via-kind:" + name, "%s does not go through kind() before running node functions" % name, fn=G)
 
 
+SCOPE_TABLE = {
+    # function -> set of normalised results (Weak upgrades / RefCell borrows / unwraps are transparent)
+    "<incremental::kind::bind::BindNode as incremental::scope::BindScope>::height": {"ret height arg1.lhs_change"},
+    "<incremental::kind::bind::BindNode as incremental::scope::BindScope>::is_valid": {"ret 0", "ret is_valid arg1.main"},
+    "<incremental::kind::bind::BindNode as incremental::scope::BindScope>::is_necessary": {"ret 0", "ret is_necessary arg1.main"},
+    "incremental::scope::Scope::height": {"ret 0", "ret height arg1.0"},
+    "incremental::scope::Scope::is_valid": {"ret 1", "ret is_valid arg1.0"},
+    "incremental::scope::Scope::is_necessary": {"ret 1", "ret is_necessary arg1.0"},
+}
+
+
+def _norm_scope(s):
+    import re
+    s = re.sub(r"\)\.0", ")", s)
+    s = re.sub(r"\b(unwrap|upgrade|borrow|expect|deref|as_ref|clone)\(", "(", s)
+    s = re.sub(r"[()]", " ", s)
+    return " ".join(s.split())
+
+
+def dtab_scope(ctx, prog, R="C03.DTAB-scope"):
+    ctx.rule(R, "a bind scope's height is the height of its lhs-change node (not anything computed from the lhs), "
+                "its validity/necessity are those of the bind-main node (false when gone); Scope::Top is height 0, "
+                "valid, necessary; Scope::Bind forwards to the BindScope")
+    n = 0
+    for path, want in sorted(SCOPE_TABLE.items()):
+        F = ctx.need_fn(R, path)
+        if F is None:
+            continue
+        tb = dtab.table(F, [], [], record_returns=True, path_sensitive=True)
+        got = set()
+        for res in tb.values():
+            got |= {_norm_scope(x) for x in dtab.summarize(res)}
+        got.discard("diverge")
+        n += 1
+        ctx.site(R, F, "results %s" % sorted(got))
+        inst = "scope:" + F.short
+        if got == want:
+            ctx.ok(R, inst)
+        else:
+            ctx.fail(R, inst, "%s yields %s, specified %s: nodes created in the bind would sit at the wrong height "
+                     "relative to the lhs-change node (or outlive its invalidation), so a stale closure can run "
+                     "before the change detector" % (F.short, sorted(got), sorted(want)), fn=F)
+    ctx.floor(R, n, 6)
+
+
 def guard_bypass(ctx, prog):
     from .c02 import guard_bypass as gb
     gb(ctx, prog, "C03.GUARD-bypass")
@@ -400,4 +445,6 @@ for _f, _id in ((pdom_register, "C03.PDOM-register"), (data_scope, "C03.DATA-sco
                 (guard_bypass, "C03.GUARD-bypass"), (can_recompute, "C03.DTAB-can-recompute")):
     _f.rule_id = _id
 
-RULES = [pdom_register, data_scope, dom_lhs_change, dtab_invalid, guard_bypass, can_recompute]
+dtab_scope.rule_id = "C03.DTAB-scope"
+
+RULES = [pdom_register, data_scope, dom_lhs_change, dtab_invalid, guard_bypass, can_recompute, dtab_scope]
